@@ -175,7 +175,8 @@ class Parser:
                 self.accept(";")
                 stmts.append(("break", ln))
             elif self.kind() == "id" and p == "continue":
-                self.fail("continue")
+                if not getattr(self, "allow_continue", False): self.fail("continue")
+                self.next(); self.accept(";"); stmts.append(("continue", ln))      # phase 4h (app mode only, tools/rs2lean_app.py)
             elif self.kind() == "id" and p == "loop":
                 self.next(); b = self.block(); stmts.append(("loop", b, ln))
             elif self.kind() == "id" and p == "while":
@@ -496,7 +497,7 @@ def find_impl(src, impl, rel):
     return j, end, impl.split()[-1], aliases
 
 
-def parse_fn(repo, rel, name, impl=None):
+def parse_fn(repo, rel, name, impl=None, allow_continue=False):
     src = strip_comments(open(os.path.join(repo, rel)).read())
     lo, hi, selfty, aliases = 0, None, None, {}
     if impl is not None:
@@ -515,7 +516,7 @@ def parse_fn(repo, rel, name, impl=None):
     off, line = find_fn(src, name, rel if impl is None else f"{rel} (impl {impl})", lo, hi)
     j = src.index("{", off); end = brace_block(src, j, f"fn {name} in {rel}")
     toks = tokenize(src[off:end], line)
-    p = Parser(toks, name)
+    p = Parser(toks, name); p.allow_continue = allow_continue
     fn = p.fn_item()
     end_line = toks[p.i - 1][2]
     norm = " ".join(t[1] for t in toks[:p.i])
@@ -3238,6 +3239,9 @@ def gen_all(repo):
             if spec.get("handler_mode"):      # phase 4e: generic butterfly network + NTTTables wrappers (tools/rs2lean_dwt.py)
                 import rs2lean_dwt
                 res[name] = rs2lean_dwt.generate(sys.modules[__name__], tr, spec)
+            elif spec.get("app_mode"):        # phase 4h: application-layer index arithmetic (tools/rs2lean_app.py)
+                import rs2lean_app
+                res[name] = rs2lean_app.generate(sys.modules[__name__], tr, spec)
             else: res[name] = ladder_file(tr, spec) if spec.get("ladder") else tr.run_file(spec)
         except (Unsupported, SystemExit) as ex: res[name] = GenFailed(str(ex))
         except Exception as ex: res[name] = GenFailed("translator error: %s: %s" % (type(ex).__name__, ex))
@@ -3733,6 +3737,9 @@ TABLE_EVALCT += [
 ]
 for _n, _sp in FILES:
     if _n == "EvalFns.lean" and "Heathcliff.Model.Scheme" not in _sp["imports"]: _sp["imports"] = _sp["imports"] + ["Heathcliff.Model.Scheme"]
+# Gen/AppFns.lean (phase 4h, app mode - tools/rs2lean_app.py): block-size searches and index lists of the application layer
+import rs2lean_app_table
+FILES += rs2lean_app_table.FILES
 # ------------------------------------------------------------------------------------------------------------------------------------
 
 if __name__ == "__main__":
